@@ -65,8 +65,40 @@ def shrink_text_case(case, fails, max_rounds=60):
     return best
 
 
+def shrink_disagreement(prop, case, select, max_rounds=14):
+    """shrink a case on which model and implementation disagree (re-evaluating both)"""
+    if "text" not in case.comps_spec:
+        return case
+    lines = case.comps_spec["text"].splitlines()
+    best = case
+    rounds = 0
+    changed = True
+    while changed and rounds < max_rounds:
+        changed = False
+        for i in range(len(lines)):
+            if rounds >= max_rounds:
+                break
+            cand_lines = lines[:i] + lines[i + 1:]
+            if not any(l and not l.startswith("#") for l in cand_lines):
+                continue
+            rounds += 1
+            cand = epflow.EpCase(case.cid + "s%d" % rounds, {"text": "\n".join(cand_lines) + "\n"}, case.factors_spec,
+                                 case.user, case.evals, strip=case.strip, tags=case.tags, want=case.want)
+            epflow.run_impl([cand])
+            if not epflow.impl_inputs_ok(cand):
+                continue
+            epflow.run_model([cand], prop)
+            if epflow.compare_case(cand, select):
+                lines = cand_lines
+                best = cand
+                changed = True
+                break
+    return best
+
+
 def run(prop, tier, seed, theorems, select, oracle, nontrivial, gen_force=None, multi_eval=False,
-        n_model=None, n_oracle=None, level_note="", extra_stage=None, known_filter=None):
+        n_model=None, n_oracle=None, level_note="", extra_stage=None, known_filter=None,
+        disagreement_is_violation=False):
     """known_filter(what, detail, case) -> finding id or None (for recorded known findings)"""
     R = check.Result(prop, tier, seed)
     rng = check.make_rng(prop, seed)
@@ -120,7 +152,18 @@ def run(prop, tier, seed, theorems, select, oracle, nontrivial, gen_force=None, 
     R.stats["model_vs_impl"] = {"cases": len(cases), "agree": R.cases_validated, "disagree": len(disagree),
                                 "tags": dict(tags)}
     for c, bad in disagree[:10]:
-        R.broken.append(("correspondence model/implementation", {"case": c.cid, "first": bad[:3], "replay": c.replay()}))
+        if disagreement_is_violation and ok and len(R.violations) < 2:
+            # the model is proved equal to the specification: a disagreement is a counter-example to the property
+            small = shrink_disagreement(prop, c, select)
+            sbad = epflow.compare_case(small, select) or bad
+            payload = small.replay()
+            payload.update({"what": "implementation differs from the EN ISO 52000-1 equations (Coq model = specification)",
+                            "disagreements": sbad[:12],
+                            "how_to_replay": "cd /verif && python3 vp.py replay <this file>; compare the listed paths"})
+            R.violations.append(("implementation differs from the specification: " + str(sbad[0].get("path", sbad[0].get("what"))),
+                                 payload))
+        else:
+            R.broken.append(("correspondence model/implementation", {"case": c.cid, "first": bad[:3], "replay": c.replay()}))
 
     # 3. oracle on implementation outputs: correspondence cases + a larger implementation-only stream
     ocases = list(cases) + epflow.gen_cases(rng, n_oracle, force=gen_force, multi_eval=multi_eval, prefix="o")
